@@ -3,11 +3,11 @@ JF = "optuna/storages/journal/_file.py"
 
 VARIANTS = [
     dict(id="c07-write-outside-lock", prop="C07", file=JF, expect="R07.1",
-         old="        with get_lock_file(self._lock):\n            what_to_write = (",
-         new="        if True:\n            what_to_write = ("),
+         old="        with get_lock_file(self._lock):\n            # Every record is followed",
+         new="        if True:\n            # Every record is followed"),
     dict(id="c07-write-other-lock", prop="C07", file=JF, expect="R07.1",
-         old="        with get_lock_file(self._lock):\n            what_to_write = (",
-         new="        with get_lock_file(JournalFileSymlinkLock(self._file_path + \".x\")):\n            what_to_write = ("),
+         old="        with get_lock_file(self._lock):\n            # Every record is followed",
+         new="        with get_lock_file(JournalFileSymlinkLock(self._file_path + \".x\")):\n            # Every record is followed"),
     dict(id="c07-open-after-lock-released", prop="C07", file=JF, expect="R07.1",
          old="            with open(self._file_path, \"ab\") as f:\n                f.write(what_to_write.encode(\"utf-8\"))\n                f.flush()\n                os.fsync(f.fileno())\n",
          new="        with open(self._file_path, \"ab\") as f:\n            f.write(what_to_write.encode(\"utf-8\"))\n            f.flush()\n            os.fsync(f.fileno())\n"),
@@ -105,4 +105,16 @@ VARIANTS += [
 VARIANTS += [
     dict(id="c07-lock-release-after-failed-acquire", prop="C07", file=JF, expect="R07.3",
          old="    lock_obj.acquire()\n    try:\n        yield\n", new="    try:\n        lock_obj.acquire()\n        yield\n"),
+]
+
+VARIANTS += [
+    dict(id="c07-empty-batch-blank-line", prop="C07", file=JF, expect="R07.7",
+         old="            what_to_write = \"\".join(\n                [json.dumps(log, separators=(\",\", \":\")) + \"\\n\" for log in logs]\n            )\n",
+         new="            what_to_write = \"\\n\".join([json.dumps(log, separators=(\",\", \":\")) for log in logs]) + \"\\n\"\n"),
+    dict(id="c07-neutral-separator-form-guarded", prop="C07", file=JF, expect=None,
+         old="            what_to_write = \"\".join(\n                [json.dumps(log, separators=(\",\", \":\")) + \"\\n\" for log in logs]\n            )\n",
+         new="            if not logs:\n                return\n            what_to_write = \"\\n\".join([json.dumps(log, separators=(\",\", \":\")) for log in logs]) + \"\\n\"\n"),
+    dict(id="c07-reader-raises-on-unterminated-line", prop="C07", file=JF, expect="R07.4",
+         old="                    last_decode_error = ValueError(\"Invalid log format.\")\n                    del self._log_number_offset[log_number + 1]\n                    continue\n",
+         new="                    del self._log_number_offset[log_number + 1]\n                    raise ValueError(\"Invalid log format.\")\n"),
 ]
